@@ -187,6 +187,7 @@ type scenario struct {
 	failBudget   int
 	badconn      int
 	parkHooks    bool
+	badconnTx    bool
 }
 
 func (sc scenario) String() string {
@@ -198,8 +199,8 @@ func (sc scenario) String() string {
 		}
 		ws = append(ws, fmt.Sprintf("w%d[%s]", i+1, strings.Join(ops, ",")))
 	}
-	return fmt.Sprintf("%s resets=%d closeEarly=%v sessionLevel=%v maxOpen=%d prepareFailures<=%d badConn<=%d hookWindows=%v",
-		strings.Join(ws, " "), sc.resets, sc.closeEarly, sc.sessionLevel, sc.maxOpen, sc.failBudget, sc.badconn, sc.parkHooks)
+	return fmt.Sprintf("%s resets=%d closeEarly=%v sessionLevel=%v maxOpen=%d prepareFailures<=%d badConn<=%d hookWindows=%v badConnInTx=%v",
+		strings.Join(ws, " "), sc.resets, sc.closeEarly, sc.sessionLevel, sc.maxOpen, sc.failBudget, sc.badconn, sc.parkHooks, sc.badconnTx)
 }
 
 func genScenario(r *core.Rand) scenario {
@@ -237,6 +238,7 @@ func execute(c *core.Ctx, sc scenario, r *core.Rand, forced []int) outcome {
 	s := newSched(r, len(sc.workers))
 	s.failBudget, s.badconnBudget, s.parkHooks, s.forced = sc.failBudget, sc.badconn, sc.parkHooks, forced
 	s.verbose = c.Verbose
+	s.badconnTxFirst = sc.badconnTx
 	s.systematic = forced != nil
 	w := openWorld(c, s, sc.sessionLevel, sc.maxOpen)
 	out := outcome{sc: sc, results: make([][]opResult, len(sc.workers))}
@@ -422,6 +424,16 @@ func run(c *core.Ctx) {
 		// many goroutines, one text, one failing preparation
 		sc.workers = [][]opKind{{"QA", "QA"}, {"QA"}, {"QA"}, {"QA", "QA"}}
 		sc.failBudget, sc.resets = 2, 0
+	case 4:
+		// a text prepared outside a transaction, then executed inside one on a connection
+		// that reports ErrBadConn: the evicted statement must still be closed
+		// (the statement must also live on another connection than the transaction's, whose
+		// driver statements die with the bad connection anyway)
+		sc.workers = [][]opKind{{"TXQA"}, {"QA", "QA"}, {"QA"}}
+		if r.Bool() {
+			sc.workers = [][]opKind{{"TXEXEC"}, {"EXEC", "EXEC"}, {"EXEC"}}
+		}
+		sc.resets, sc.failBudget, sc.badconn, sc.badconnTx, sc.sessionLevel = 0, 0, 1, true, false
 	case 2:
 		// Reset while preparations are in flight
 		sc.workers = [][]opKind{{"QA", "QB"}, {"QA", "QB"}, {"QB", "QA"}}
